@@ -18,7 +18,7 @@ RULE = ('one run = one seeded history (stores, conflicts, deletes, undos, '
         'transactions; distinct = hash of (kind, outcome sequence, final '
         'model shape)')
 BUDGET = {'quick': {'runs': 6000, 'wall': 240},
-          'thorough': {'runs': 350000, 'wall': 1800}}
+          'thorough': {'runs': 350000, 'wall': 1200}}
 ASSUMPTIONS = [
     'reading an un-created revision may raise POSKeyError or return None',
     'the data_txn hint of an iterator record only has to name a revision '
